@@ -66,6 +66,7 @@ _PLUNGER = {"switches": ["s_plunger"], "coil": "c_plunger", "target": "playfield
 _COMMON = {"drain": "bd_trough", "pf_switch": "s_pf", "transit_time": 0.3, "pf_time": 1.0}
 TOPO = {
     "t1": dict(_COMMON, devices={"bd_trough": _TROUGH, "bd_plunger": _PLUNGER}, balls={"bd_trough": 2}),
+    "t1r": dict(_COMMON, devices={"bd_trough": _TROUGH, "bd_plunger": dict(_PLUNGER, shot=True)}, balls={"bd_trough": 2}, config="t1"),
     "t1m": dict(_COMMON, devices={"bd_trough": _TROUGH, "bd_plunger": dict(_PLUNGER, mechanical=True)}, balls={"bd_trough": 2}),
     "t2": dict(_COMMON, devices={"bd_trough": _TROUGH, "bd_plunger": _PLUNGER,
                                  "bd_lock": {"entrance": "s_lock_entrance", "capacity": 2, "coil": "c_lock", "target": "playfield",
@@ -82,9 +83,12 @@ SCRIPTS = {
     "mechanical-plunger": ("t1m", None, [["start"], ["plunge", "bd_plunger", "ok"], ["drain"]]),
     "lock-shot": ("t2", None, [["start"], ["shoot", "bd_lock"], ["drain"]]),
     "saucer-shot": ("t3", None, [["start"], ["shoot", "bd_saucer"], ["drain"]]),
+    "plunger-lane-return": ("t1r", None, [["start"], ["add"], ["shoot", "bd_plunger"], ["drain"], ["drain"]]),
+    "over-request": ("t1", None, [["start"], ["add"], ["add"], ["drain"], ["drain"], ["drain"]]),
     "two-attempts": ("t1", {"ball_devices": {"bd_plunger": {"max_eject_attempts": 2}}}, [["start"], ["drain"]]),
 }
-QUICK_SCRIPTS = ("one-ball-game", "two-balls-in-play", "mechanical-plunger", "lock-shot", "saucer-shot")
+QUICK_SCRIPTS = ("one-ball-game", "two-balls-in-play", "mechanical-plunger", "lock-shot", "saucer-shot", "plunger-lane-return",
+                 "over-request")
 MAX_REST_STEPS = 400
 
 
@@ -102,7 +106,8 @@ class BallDriver:
         Races.flip, Races.count, Races.flipped = False, 0, 0
         topo, patches, self.script = SCRIPTS[self.script_name]
         self.max_attempts = {d: (c.get("max_eject_attempts", 0)) for d, c in ((patches or {}).get("ball_devices") or {}).items()}
-        self.sys = System("c04", topo + ".yaml", patches=patches)
+        self.max_adds = 2 if self.script_name == "over-request" else 1
+        self.sys = System("c04", TOPO[topo].get("config", topo) + ".yaml", patches=patches)
         self.m = self.sys.machine
         self.loop = self.sys.loop
         self.t0 = self.loop.time()
@@ -116,6 +121,8 @@ class BallDriver:
         self._races = 0
         self._done = False
         self.m.events.add_handler("ball_started", self._on_ball_started)
+        self.drains_seen = 0
+        self.m.events.add_handler("ball_drain", self._on_ball_drain, priority=100000)
         for d in self.w.dev:
             for e in ("ball_eject_failed", "ball_eject_success", "broken", "ball_missing"):
                 self.m.events.add_handler("balldevice_%s_%s" % (d, e), self._on_ev, _n="%s_%s" % (d, e))
@@ -127,6 +134,9 @@ class BallDriver:
 
     def _on_ball_started(self, **kwargs):
         self.requested += 1
+
+    def _on_ball_drain(self, balls=0, **kwargs):
+        self.drains_seen += balls
 
     def _on_ev(self, _n, **kwargs):
         self.ev.append((round(self.loop.time() - self.t0, 3), _n))
@@ -148,16 +158,18 @@ class BallDriver:
                 out += [["plunge", d, "ok"], ["plunge", d, "fallback"]]
         if self.m.game is None and self.pos == 0:
             out.append(["start"])
-        if self.m.game is not None and self.adds < 1 and self.m.game.balls_in_play < self.w.total:
+        if self.m.game is not None and self.adds < self.max_adds and self.m.game.balls_in_play < self.w.total + self.max_adds - 1:
             out.append(["add"])
         return out
 
     def enabled(self):
         if self._done:
             return []
-        if self.w.kicks:
-            return [(["kick", self.w.kicks[0], o], 0 if i == 0 else 1) for i, o in enumerate(self.w.outcomes(self.w.kicks[0]))]
         acts = self.actions()
+        if self.w.kicks:
+            # the ball reacts to the pulse now (default) - or something else happens first
+            return [(["kick", self.w.kicks[0], o], 0 if i == 0 else 1) for i, o in enumerate(self.w.outcomes(self.w.kicks[0]))] + \
+                [(a, 1) for a in acts]
         if self.loop.next_deadline() is not None:
             return [("T", 0)] + [(a, 1) for a in acts]
         nxt = self.script[self.pos] if self.pos < len(self.script) else None
@@ -328,6 +340,16 @@ class BallDriver:
             desc = desc or self.describe()
             self.violate("C04:rest-conservation", "at rest after %r the counts sum to %d, num_balls_known = %d, the machine has %d balls: %s" %
                          (choice, total, known, w.total, desc))
+        pending = (self.m.game is not None and self.m.game.balls_in_play > w.total) or \
+            any(c.get("mechanical") and w.at[n] > 0 for n, c in self.w.dev.items()) or \
+            any(d.state == "eject_broken" for _, d in self.devices())
+        if not pending:
+            for n, d in self.devices() + [("playfield", self.m.playfield)]:
+                if d.available_balls != d.balls and not (n != "playfield" and self.w.dev[n].get("mechanical") and w.at[n] > 0) \
+                        and getattr(d, "state", "idle") in ("idle",):
+                    desc = desc or self.describe()
+                    self.violate("C04:rest-available:%s" % n, "at rest after %r %s.available_balls = %d but balls = %d and no request is "
+                                 "pending: %s" % (choice, n, d.available_balls, d.balls, desc))
         # ---- C05 ----
         waiting_for_player = 0
         broken = False
@@ -356,13 +378,17 @@ class BallDriver:
                 desc = desc or self.describe()
                 self.violate("C05:rest-not-idle:%s:%s" % (n, d.state), "nothing moves any more (no timer, no ball in transit) but %s is in "
                              "state %s after %r: %s" % (n, d.state, choice, desc))
-        if self.m.game is not None and self.m.game.balls_in_play <= w.total and not broken and not waiting_for_player:
-            want = self.m.game.balls_in_play
+        if self.m.game is not None and not broken and not waiting_for_player:
+            # requests: one per ball start plus the added ones; a request beyond the balls of the machine waits for a drain;
+            # only drains MPF has recognised end a request (a drain it took for a returning ball is simply served again)
+            want = min(self.requested + self.adds - self.drains_seen, w.total)
             if w.loose + waiting_for_player < want:
                 desc = desc or self.describe()
-                self.violate("C05:request-not-delivered", "at rest after %r: the game has %d ball(s) in play (%d ball starts, %d added) but only "
-                             "%d are on the playfield (%d wait for the player in a plunger) and nothing is moving: %s" %
-                             (choice, want, self.requested, self.adds, w.loose, waiting_for_player, desc))
+                self.violate("C05:request-not-delivered", "at rest after %r: %d ball(s) were requested for the playfield (%d ball starts, %d "
+                             "added), MPF has seen %d drain, the machine has %d balls, but only %d are on the playfield (%d wait for the "
+                             "player in a plunger) and nothing is moving: %s" %
+                             (choice, self.requested + self.adds, self.requested, self.adds, self.drains_seen, w.total, w.loose,
+                              waiting_for_player, desc))
 
     # ---- helpers --------------------------------------------------------------------------------
     def stat(self, name, n=1):
